@@ -255,6 +255,8 @@ pub struct Walk {
     /// listing per directory (all slots in order, up to and including everything the chain holds)
     pub dir_slots: HashMap<DirLoc, Vec<Slot>>,
     pub junk_exposed: Vec<(String, u32, u32)>,
+    /// total length of all chains stored so far (bounds the work on garbage directories)
+    pub chain_total: usize,
 }
 
 pub fn latin1(n: &[u8]) -> String {
@@ -348,7 +350,9 @@ impl<'a> Snap<'a> {
             }
             DirLoc::Cluster(start) => {
                 let (chain, end) = self.chain(start);
-                for &c in &chain {
+                // a FAT directory holds at most 65536 entries; do not follow garbage further
+                let max_clusters = (65_536usize / (self.vol.spc as usize * 16)).max(1) + 1;
+                for &c in chain.iter().take(max_clusters) {
                     for k in 0..self.vol.spc {
                         let blk = self.vol.cluster_blk(c) + k;
                         let b = self.src.get(blk);
@@ -521,6 +525,10 @@ impl<'a> Snap<'a> {
         // children
         let mut pending_lfn: Vec<Slot> = Vec::new();
         for s in live {
+            if w.nodes.len() > 40_000 || w.chain_total > 3 * (self.vol.clusters as usize + 2) {
+                w.findings.push(Finding { rule: "walk-limit", path: path.clone(), detail: "more than 40000 objects or chains three times the volume: walk abandoned (garbage directory?)".into() });
+                return;
+            }
             if s.is_lfn() {
                 pending_lfn.push(s);
                 continue;
@@ -537,6 +545,7 @@ impl<'a> Snap<'a> {
             let size = s.size();
             let (chain, end) = if start == 0 { (vec![], ChainEnd::Eoc) } else { self.chain(start) };
             let idx = w.nodes.len();
+            w.chain_total += chain.len();
             w.nodes.push(Node { path: cpath.clone(), parent_dir: loc, slot: s.clone(), is_dir, size, start, chain: chain.clone(), chain_end: end.clone(), lfn, depth });
             if start != 0 {
                 if !self.vol.in_range(start) {
